@@ -139,11 +139,13 @@ Fixpoint split_use (y : name) (p : iprog) : option (iprog * name * bool * iprog)
       end
   end.
 
-(* old = true: before 13da1a3 (no look at calls / method calls in between).
+(* old = true: before 13da1a3 (no look at calls / method calls in between); nocall = true: before 0eb93cc (no look at
+   calls inside the value, which is evaluated a second time).
    For modules with exactly ONE candidate assignment (the only ones the correspondence generates):
    exactly one load of y in the module (2743-2746), none of y and the names of the value mentioned between the
-   value and the use, the target z of the use included (2761-2766), nothing in between that may mutate (2773-2780) *)
-Definition inl_with (old : bool) (p : iprog) : iprog :=
+   value and the use, the target z of the use included, nothing in between that may mutate, nothing in the value
+   that is not a harmless call *)
+Definition inl_with (old nocall : bool) (p : iprog) : iprog :=
   match split_cand p with
   | None => p
   | Some (pre, y, v, rest) =>
@@ -154,12 +156,14 @@ Definition inl_with (old : bool) (p : iprog) : iprog :=
           if Nat.eqb (fold_right (fun st n => (loads y st + n)%nat) 0%nat p) 1
              && negb (existsb (fun n => mem n deps) (flat_map snames mid ++ [z]))
              && (old || negb (existsb mutates mid))
+             && (nocall || negb (bad_call v))
           then pre ++ IS (SAssign y v) :: mid ++ IMath z ln v :: post
           else p
       end
   end.
-Definition inl := inl_with false.
-Definition inl_before_13da1a3 := inl_with true.
+Definition inl := inl_with false false.
+Definition inl_before_13da1a3 := inl_with true true.
+Definition inl_before_0eb93cc := inl_with false true.
 
 (* ---------------------------------------------------------------- guard of the _partial theorem *)
 (* the value is made of list / tuple / sorted / list comprehension over a display or a variable that holds a list of
